@@ -10,6 +10,8 @@ from __future__ import annotations
 import itertools
 import json
 import random
+import re
+import subprocess
 
 from vcheck import core
 from vcheck.val import Exc, from_jsonable, jsonable, zlit
@@ -32,6 +34,88 @@ PARTIAL = [
     "spans only cell count and 'inside the parent' (the method discards strand, as documented)",
     "merge_maps: parent_length=None only; termini_unknown, tidy_start/tidy_end/value, serialisation: not modelled",
 ]
+
+
+# ------------------------------------------------------------------ translator tie (IndelMap integer / array kernel)
+
+TRANSLATOR = "harness/translators/indelmap.py"
+MODEL_TARGETS = ["theories/Model/IndelMapRun.vo", "theories/Model/FeatureMapRun.vo"]
+
+
+def run_translator():
+    """regenerate gen/IndelMapGen.v from the current source text; returns (error string or None, records)"""
+    core.GEN.mkdir(exist_ok=True)
+    rec = core.GEN / "IndelMapGen.records.json"
+    if rec.exists():
+        rec.unlink()
+    r = subprocess.run([core.PY, str(core.VERIF / TRANSLATOR), "--repo", str(core.REPO), "--records", str(rec)],
+                       capture_output=True, text=True, env=core.impl_env(), cwd=str(core.VERIF))
+    out = core.GEN / "IndelMapGen.v"
+    if r.returncode != 0:
+        return (r.stderr or r.stdout).strip()[-800:] or f"translator exited with {r.returncode}", []
+    if not r.stdout.rstrip().endswith("End G."):
+        return "translator produced truncated output", []
+    if not out.exists() or out.read_text() != r.stdout:
+        out.write_text(r.stdout)
+    try:
+        records = json.loads(rec.read_text())
+    except (OSError, ValueError) as e:
+        return f"translator wrote no function records: {e}", []
+    return None, records
+
+
+def pre_build():
+    err, _ = run_translator()
+    if err:
+        raise core.CheckError("indelmap translator failed: " + err)
+
+
+def explain_tie_break(problem):
+    """a build failure inside IndelMapGenEq.v / IndelMapGen.v is a broken translator tie: name the lemma / generated function"""
+    m = re.search(r"(Proofs/IndelMapGenEq\.v|Proofs/IndelMapGenMain\.v|gen/IndelMapGen\.v):(\d+)", problem)
+    if not m:
+        return problem
+    path = core.COQ / ("theories/" + m.group(1) if m.group(1).startswith("Proofs") else m.group(1))
+    try:
+        lines = path.read_text().split("\n")[: int(m.group(2))]
+    except OSError:
+        return problem
+    lemma = None
+    for ln in lines:
+        mm = re.match(r"(?:Lemma|Definition|Theorem)\s+(\w+)", ln)
+        if mm:
+            lemma = mm.group(1)
+    what = ("the function generated from the current source is no longer provably equal to the model function"
+            if m.group(1).startswith("Proofs") else "the generated Gallina does not type-check")
+    return f"translator tie broken at {lemma}: {what} ({problem})"
+
+
+def tie_report(terr, records, pr):
+    """coverage['translator_tie']: what was translated and whether equality with the model was proved in this run"""
+    src = core.strip_comments((core.COQ / "theories" / "Proofs" / "IndelMapGenEq.v").read_text())
+    lemmas = re.findall(r"Lemma\s+(\w+_eq)\b", src)
+    gen_thms = [t for t in pr.get("theorems", {}) if t.startswith("gen_")]
+    proved = terr is None and not pr.get("problems") and bool(gen_thms) and all(pr["theorems"][t]["ok"] for t in gen_thms)
+    if terr is not None:
+        status = "broken: translator failed closed: " + terr
+    elif pr.get("problems"):
+        status = "broken: " + "; ".join(str(x) for x in pr["problems"])[:600]
+    else:
+        status = "ok"
+    return dict(
+        status=status, translator=TRANSLATOR, generated="coq/gen/IndelMapGen.v (module G)",
+        equality_file="coq/theories/Proofs/IndelMapGenEq.v", equality_with_model_proved=proved,
+        equality_lemmas=lemmas if proved else [], transported_theorems=gen_thms if proved else [],
+        functions=records,
+        not_translated=["nongap", "spans", "merge_maps", "joined_segments", "minus_gaps", "shared_gaps", "from_aligned_segments",
+                        "from_spans", "gap_coords_to_map", "Sequence.parse_out_gaps", "FeatureMap / Span (all)"],
+        reading="Python int / numpy integer = Z; numpy arrays and Python lists = list Z (which of the two is tracked, `+` differs); "
+                "a[i] = the total read pyget (negative wrap, 0 out of range) and a[i:j] with non-literal bounds = zslice (bounds >= 0), "
+                "as in Model/IndelMap.v; searchsorted = first index with element >= v (> v); falling off the end = Err E_None; "
+                "(idx,) = numpy.where(m)[0] raises ValueError unless exactly one match; in-place updates of local arrays are rebinding "
+                "(views and their bases are removed from scope after an update; updating a field of self aborts); "
+                "self.num_gaps = len(gap_pos) (checked in __post_init__); tolerated and dropped: flags.writeable, _serialisable.pop",
+    )
 
 
 # ------------------------------------------------------------------ plain-Python oracle on mask strings
@@ -977,8 +1061,26 @@ def build_cases(tier, rng, widen=1):
 def run(tier: str, seed: int) -> int:
     rep = core.Report(PROP, tier, seed)
     rng = random.Random(seed * 7919 + 8)
-    pr = core.proof_stage(PROP, COQ_TARGETS)
-    core.proof_coverage(rep, pr, "make theories/Properties/C08.vo && coqc gen/assum_C08.v (Print Assumptions)", [
+    # gen/IndelMapGen.v is shared by every run: concurrent C08 runs against different source trees (seeded-change tests) must
+    # not build against each other's translation, so regenerate + build + Print Assumptions happen under one lock
+    core.GEN.mkdir(exist_ok=True)
+    with core._Lock(core.GEN / ".c08_indelmapgen.lock"):
+        terr, records = run_translator()
+        if terr is None:
+            pr = core.proof_stage(PROP, COQ_TARGETS)
+        else:
+            # the source left the translatable fragment: no proof obligation counts as discharged, the tie is reported broken
+            # and the decision falls to the (widened) behavioural correspondence below
+            pr = {"obligations": len(core.property_theorems(PROP)), "discharged": 0, "theorems": {},
+                  "problems": ["translator tie broken: indelmap.py failed closed: " + terr]}
+        if pr["problems"]:
+            core.make(MODEL_TARGETS)      # the models do not depend on the generated file: keep them runnable
+            pr["problems"] = [explain_tie_break(x) for x in pr["problems"]]
+    core.proof_coverage(rep, pr, "indelmap.py > gen/IndelMapGen.v && make theories/Properties/C08.vo && coqc gen/assum_C08.v (Print Assumptions)", [
+        "translator harness/translators/indelmap.py: trusted to emit Gallina that means what the Python text of the IndelMap kernel "
+        "means, for the fragment it accepts (integer expressions, comparisons, and/or/not, if/elif/else with early return or merge, "
+        "local assignments, a small set of numpy array primitives mapped to the list functions of the model, keyword construction, "
+        "raise); anything else aborts the translation (coverage.translator_tie.reading lists the conventions)",
         "numpy int32/int64 arrays are modelled as unbounded integer lists (no overflow, no dtype); numpy.searchsorted is modelled "
         "as a linear 'first index with element >= v (> v)' scan, equal to the binary search on the sorted arrays of a well-formed map",
         "Model/IndelMapFixed.v transcribes the corrections proposed in notes/proposed_fixes/C08-*.diff; which of the two "
@@ -1051,6 +1153,7 @@ def run(tier: str, seed: int) -> int:
         model_impl_disagreements=tally.n_dis, spec_violations=tally.n_vio,
         partial=PARTIAL,
         exhaustive=True,
+        translator_tie=tie_report(terr, records, pr),
         exhaustive_scope=("all masks of length <= %d x all (start, stop) in -(n+2)..n+2 and None x all indices; all pairs of masks "
                           "of length <= %d; all masks of length <= %d x all lists of <= 3 sorted disjoint segments") % (
             (7, 4, 5) if tier == "quick" else (10, 5, 7)),
